@@ -257,3 +257,43 @@ for _w, _fid in ((0, "F21"), (1, "F22")):
         reach=False,
         classifier=(lambda fid: (lambda call, replay: fid))(_fid),
     )
+
+
+# ---- d: user-chosen names that coincide with internal field names (round 3) --------------------------
+USER_NAMES = ["parent", "control", "extra_data", "bind", "children", "itemset", "name", "L1"]
+
+
+def c16_user_names(ni: int, where: int, c0: int) -> bool:
+    """
+    vpre: 0 <= ni <= 7
+    vpre: 97 <= c0 <= 122
+    vpost: _ == True
+    """
+    n = USER_NAMES[ni]
+    lab = S(c0, 65)
+    if where == 0:  # language name on survey and choices labels
+        rows = [{"type": "text", "name": "t", "label::" + n: lab, "label::other": "O", "hint::" + n: "H"}, {"type": "select_one l1", "name": "s", "label::" + n: "S", "label::other": "T"}]
+        ch = [{"list_name": "l1", "name": "a", "label::" + n: "A", "label::other": "B"}, {"list_name": "l1", "name": "b", "label::" + n: "C", "label::other": "D"}]
+        wb = {"survey": rows, "choices": ch}
+    elif where == 1:  # custom attribute columns
+        rows = [{"type": "begin group", "name": "g", "label": "G", "bind::" + n: "v1"}, {"type": "text", "name": "t", "label": lab, "instance::" + n: "v2", "bind::" + n: "v3"}, {"type": "end group"}]
+        wb = {"survey": rows}
+    else:  # choice list name / extra choices column
+        rows = [{"type": "select_one " + n, "name": "s", "label": lab}]
+        ch = [{"list_name": n, "name": "a", "label": "A", n: "x"}, {"list_name": n, "name": "b", "label": "B", n: "y"}]
+        wb = {"survey": rows, "choices": ch}
+    return _roundtrip_ok(wb)
+
+
+specialise(
+    "C16",
+    "d.user-names",
+    c16_user_names,
+    {"where": [0, 1, 2]},
+    timeout=500,
+    kernel=K + ("pyxform.survey_element:SurveyElement._delete_keys_from_dict",),
+    shims=("S1", "S2", "S3", "S4"),
+    symbolic="a user-chosen name taken by a symbolic index from a menu of 8 (7 coincide with internal field names of the element classes: parent, control, extra_data, bind, children, itemset, name), label tracer",
+    bounds="the name is used as a language name (survey+choices labels, hint) / as a custom bind:: and instance:: attribute / as a choice list name and extra choices column (fixed per instance); same round-trip oracle as c.features",
+    weight=100,
+)
